@@ -137,10 +137,40 @@ def parseAll : Nat → List String → Option (List Val)
 
 def parseRows (toks : List String) : Option (List Val) := parseAll (toks.length + 1) toks
 
-/-- total order shared with the harness: by `toInt`, ties by the encoded text -/
+/-! ## the order shared with the harness (`impl Ord for V`)
+
+`Val.le` compares by `toInt` first and breaks ties by the STRUCTURAL order `Val.cmp`: constructor rank
+(`I < S < U < N < O < P < L`, `nil < cons`, `err` last), then the components — ints numerically, strings by
+`compare` on `String` (code points = UTF-8 bytes, Rust's `str::cmp`), `some` / `pair` component-wise, lists
+lexicographically (head, then tail; a proper prefix is smaller). Unlike the encoded text `enc` (which does not
+separate `cons 1 0` from `cons 1 nil`), `cmp a b = .eq` only for `a = b`, so `le` is antisymmetric on ALL of
+`Val` (`Proofs/ValOrder.lean`). `enc` remains the wire format and the canonicalisation key (`sortByEnc`). -/
+
+/-- variant rank: `I < S < U < N < O < P < L` (`nil` before `cons`), `err` (no Rust counterpart) last -/
+def rank : Val → Nat
+  | .int _ => 0
+  | .str _ => 1
+  | .unit => 2
+  | .none => 3
+  | .some _ => 4
+  | .pair _ _ => 5
+  | .nil => 6
+  | .cons _ _ => 7
+  | .err => 8
+
+/-- the structural order -/
+def cmp : Val → Val → Ordering
+  | .int a, .int b => compare a b
+  | .str a, .str b => compare a b
+  | .some a, .some b => cmp a b
+  | .pair a₁ a₂, .pair b₁ b₂ => (cmp a₁ b₁).then (cmp a₂ b₂)
+  | .cons a₁ a₂, .cons b₁ b₂ => (cmp a₁ b₁).then (cmp a₂ b₂)
+  | a, b => compare (rank a) (rank b)
+
+/-- total order shared with the harness: by `toInt`, ties by the structural order -/
 def le (a b : Val) : Bool :=
   let x := toInt a; let y := toInt b
-  if x < y then true else if y < x then false else decide (enc a ≤ enc b)
+  if x < y then true else if y < x then false else (cmp a b).isLE
 
 def lt (a b : Val) : Bool := le a b && !(a == b)
 
